@@ -101,7 +101,15 @@ class BaseRunner(metaclass=ABCMeta):
         if self._stopped.is_set():
             return
         # the loop exists independently of all runners, we can use it to shut down
-        closed = asyncio.run_coroutine_threadsafe(self.aclose(), self.asyncio_loop)
+        aclose = self.aclose()
+        try:
+            closed = asyncio.run_coroutine_threadsafe(aclose, self.asyncio_loop)
+        except RuntimeError:
+            aclose.close()
+            if not self.asyncio_loop.is_closed():
+                raise
+            # another stop has shut down the loop, and this runner with it, already
+            return
         try:
             closed.result()
         except concurrent.futures.CancelledError:
